@@ -67,29 +67,60 @@ class Universe:
             self._topo = order
         return self._topo
 
-    def expected(self, indep: dict):
-        key = tdigest(*[indep[k] for k in sorted(indep)])
+    def expected(self, indep: dict, key=None):
+        if key is None:
+            key = tdigest(*[indep[k] for k in sorted(indep)])
         e = self._expected_cache.get(key)
         if e is None:
             vals = {}
             for n in self._order():
                 var = self.dag[n]
+                parents = self.dag.direct_ancestors[n]
                 if n in indep:
                     v = indep[n]
-                    vals[n] = "INPUT_ERROR" if v is None else copy.deepcopy(v)
+                    vals[n] = "ERR:UNSET" if v is None else copy.deepcopy(v)
                 elif type(var).__name__ == "Hyperparameter":
                     vals[n] = var.value
-                elif not self.dag.direct_ancestors[n]:
-                    vals[n] = "INPUT_ERROR"
-                elif any(isinstance(vals[p], str) for p in self.dag.direct_ancestors[n]):
-                    vals[n] = "INPUT_ERROR"
+                elif not parents:
+                    vals[n] = "ERR:UNSET"
+                elif any(isinstance(vals[p], str) for p in parents):
+                    # union of the failure classes of the ancestors (whichever is met first may surface)
+                    kinds = set()
+                    for p in parents:
+                        if isinstance(vals[p], str):
+                            kinds |= set(vals[p][4:].split("+"))
+                    vals[n] = "ERR:" + "+".join(sorted(kinds))
                 else:
-                    vals[n] = var.compute(vals)
+                    try:
+                        vals[n] = var.compute(vals)
+                    except Exception:  # the definition itself refuses these inputs
+                        vals[n] = "ERR:DEF"
             e = {n: vals[n] for n in self.observed}
             if len(self._expected_cache) > 20000:
                 self._expected_cache.clear()
             self._expected_cache[key] = e
         return e
+
+
+class _Indep(dict):
+    """dict of independent values that keeps one digest per entry (values are never mutated in place)."""
+
+    def __init__(self, *a, **k):
+        super().__init__(*a, **k)
+        self.dig = {key: tdigest(val) for key, val in self.items()}
+
+    def __setitem__(self, key, val):
+        super().__setitem__(key, val)
+        self.dig[key] = tdigest(val)
+
+    def copy(self):
+        new = _Indep.__new__(_Indep)
+        dict.__init__(new, self)
+        new.dig = dict(self.dig)
+        return new
+
+    def key(self):
+        return "|".join(self.dig[k] for k in sorted(self.dig))
 
 
 class Ref:
@@ -98,12 +129,12 @@ class Ref:
     __slots__ = ("indep", "fork", "mode")
 
     def __init__(self, indep, fork=None, mode=None):
-        self.indep = indep
+        self.indep = indep if isinstance(indep, _Indep) else _Indep(indep)
         self.fork = fork  # None or (node, before_value)
         self.mode = mode
 
     def copy(self):
-        return Ref(dict(self.indep), self.fork, self.mode)
+        return Ref(self.indep.copy(), self.fork, self.mode)
 
 
 def _clone_value(v, memo):
@@ -173,6 +204,25 @@ def select_rows(mask_list, old, cur):
     return torch.where(mm, old, cur)
 
 
+def _read(st, v):
+    """Value, or "ERR:UNSET" (input error about a required unset independent variable) / "ERR:DEF" (anything else)."""
+    try:
+        return st[v]
+    except LeaspyInputError as exc:
+        return "ERR:UNSET" if "independent variable which is required" in str(exc) else "ERR:DEF"
+    except Exception:
+        return "ERR:DEF"
+
+
+def _same_error(got, exp):
+    """Both must be errors, and the class observed must be one of those the from-scratch evaluation meets:
+    UNSET = a needed independent value is unset (must be reported as the input error), DEF = a definition
+    refuses its inputs (e.g. non-finite values)."""
+    if not (isinstance(got, str) and isinstance(exp, str)):
+        return False
+    return got[4:] in exp[4:].split("+")
+
+
 class StepError(Exception):
     """The implementation deviated from the reference in the operation itself."""
 
@@ -226,17 +276,14 @@ def apply_op(u: Universe, st: State, ref: Ref, op):
             ref.indep[v] = new
     elif kind == "read":
         v = op[1]
-        exp = u.expected(ref.indep)[v] if v in u.observed else None
-        try:
-            got = st[v]
-        except LeaspyInputError:
-            got = "INPUT_ERROR"
+        exp = u.expected(ref.indep, ref.indep.key())[v] if v in u.observed else None
+        got = _read(st, v)
         if v in u.observed:
             if isinstance(exp, str) or isinstance(got, str):
-                if exp is not got and exp != got:
+                if not _same_error(got, exp):
                     raise StepError(
-                        f"read('{v}') {'raised an input error' if isinstance(got, str) else 'returned a value'} "
-                        f"but from-scratch evaluation {'raises' if isinstance(exp, str) else 'gives a value'}"
+                        f"read('{v}') {'raised ' + got if isinstance(got, str) else 'returned a value'} "
+                        f"but from-scratch evaluation {'raises ' + exp if isinstance(exp, str) else 'gives a value'}"
                     )
                 note = "input_error"
             elif not same_value(got, exp):
@@ -318,7 +365,7 @@ def check_all(u: Universe, st: State, ref: Ref, deep: bool = False):
     reference (the documented invariant "all not-None values are self-consistent"); values that are not cached
     are checked when they get read (every read is a transition of the menu and compares what it returns).
     deep=True additionally reads every observed node through a throw-away copy."""
-    exp = u.expected(ref.indep)
+    exp = u.expected(ref.indep, ref.indep.key())
     bad = []
     for n in u.observed:
         got = st._values[n]
@@ -335,15 +382,12 @@ def check_all(u: Universe, st: State, ref: Ref, deep: bool = False):
         return bad
     probe = copy_state(st)
     for n in u.observed:
-        try:
-            got = probe[n]
-        except LeaspyInputError:
-            got = "INPUT_ERROR"
+        got = _read(probe, n)
         e = exp[n]
         if isinstance(e, str) or isinstance(got, str):
-            if not (isinstance(e, str) and isinstance(got, str)):
+            if not _same_error(got, e):
                 bad.append(
-                    (n, "input error instead of a value" if isinstance(got, str) else "a value instead of an input error", None, None)
+                    (n, "raises instead of giving a value" if isinstance(got, str) else "gives a value instead of an error", brief(got), brief(e))
                 )
         elif not same_value(got, e):
             bad.append((n, "differs from from-scratch evaluation", brief(got), brief(e)))
@@ -357,7 +401,7 @@ def state_key(u: Universe, st: State, ref: Ref):
     else:
         fk = tuple(sorted((k, tdigest(v)) for k, v in st._last_fork.items()))
     return (
-        tdigest(*[ref.indep[k] for k in sorted(ref.indep)]),
+        ref.indep.key(),
         cached,
         fk,
         None if ref.fork is None else (ref.fork[0], tdigest(ref.fork[1])),
